@@ -49,9 +49,9 @@ def strategy(tier, shard):
     def cases(draw):
         mode = draw(st.sampled_from(["hub", "hub", "hub-sticky", "free"]))
         if mode == "free":
-            spec = draw(mdp_specs(max_states=5, max_actions=3, allow_pol0=False, structure=False))
+            spec = draw(mdp_specs(max_states=5, max_actions=3, allow_pol0=False, structure=False, allow_int_v0=True))
         else:
-            spec = draw(mdp_specs(max_states=9, allow_pol0=False, chain="hub", sticky=(mode == "hub-sticky")))
+            spec = draw(mdp_specs(max_states=9, allow_pol0=False, chain="hub", sticky=(mode == "hub-sticky"), allow_int_v0=True))
         spec["flags"] = spec["flags"] + [mode]
         nS, sc = spec["nS"], spec["scale"]
         cfg = dict(solver="rvi", gamma=1.0, eps=float(sc * 10.0 ** draw(st.sampled_from([-5, -4, -3, -2, -1, 0, 0.5, 1.5]))),
